@@ -7,9 +7,9 @@ from sa.astx import dotted, src
 from sa.effects import module_accesses
 from sa.selftest import Mutant, Silent
 from sa.source import AnalysisError
-from sa.props._lib_a import (DEFER, Q, RunShape, group, fpath, _zero_fact, deferred_fact, attr_of, avoiding_path, call_nodes, calls_of, catching_handlers, const_int,
+from sa.props._lib_a import (DEFER, Q, RunShape, ChainWalk, group, root_callers, inlined_func, _zero_fact, deferred_fact, attr_of, avoiding_path, call_nodes, calls_of, catching_handlers, const_int,
                              exc_escape, facts, handler_catches_all, handler_names, ident_fact, is_const, is_name, known_bool,
-                             known_zero, method_call, name_assign_nodes, no_exc, params, real_func, stmt_nodes, targets_values)
+                             known_zero, method_call, name_assign_nodes, no_exc, params, stmt_nodes, targets_values)
 
 PROPERTY = "C01"
 TECHNIQUE = "CFG dominance/must-pass + who-may-mutate over Deferred._runCallbacks and add*/pause/unpause"
@@ -63,11 +63,12 @@ def check(ctx):
             # frozen exception, confirmed by reading: the cancel errback is put *first*, the rest keeps its order (C05 checks it)
             ("_addCancelCallbackToDeferred", "assign"), ("_addCancelCallbackToDeferred", "rebind-empty"), ("_addCancelCallbackToDeferred", "extend"),
         }
+        roots = {a.func: sorted(root_callers(mod, a.func)) for a in acc}   # a private helper acts for the functions it is reached from
         for a in acc:
-            ctx.check((a.func, a.kind) in allowed, "callbacks/who-may-mutate", ctx.construct(Q + a.func, a.node),
+            ctx.check(all((r, a.kind) in allowed for r in roots[a.func]), "callbacks/who-may-mutate", ctx.construct(Q + a.func, a.node),
                       f"`callbacks` is mutated by operation kind '{a.kind}' in {a.func}: callbacks would not run once each, in the order added")
         ctx.floor("callbacks/who-may-mutate", len(acc), 5)
-        fills = [a for a in acc if a.kind in ("append", "appendleft", "insert0", "insert", "extend") and a.func.startswith("Deferred.")]
+        fills = [a for a in acc if a.kind in ("append", "appendleft", "insert0", "insert", "extend") and all(r.startswith("Deferred.") for r in roots[a.func])]
         drains = [a for a in acc if a.kind.startswith("pop") or a.kind in ("remove", "del-prefix", "delitem", "clear")]
         for a in fills:
             ctx.check(a.kind == "append", "callbacks/fifo-fill", ctx.construct(Q + a.func, a.node),
@@ -77,7 +78,7 @@ def check(ctx):
                 return True
             return a.kind == "delitem" and isinstance(a.node, ast.Delete) and all(isinstance(t, ast.Subscript) and const_int(t.slice) == 0 for t in a.node.targets)
         for a in drains:
-            ctx.check(front(a) and a.func == "Deferred._runCallbacks", "callbacks/fifo-drain", ctx.construct(Q + a.func, a.node),
+            ctx.check(front(a) and roots[a.func] == ["Deferred._runCallbacks"], "callbacks/fifo-drain", ctx.construct(Q + a.func, a.node),
                       f"callbacks consumed with '{a.kind}' in {a.func}: with two callbacks added, the second would run first / be dropped")
         ctx.check(any(front(a) for a in drains), "callbacks/fifo-drain", q + " | <consumption of callbacks>",
                   "_runCallbacks no longer removes callbacks from the front as it runs them (each would run again, or out of order)")
@@ -87,45 +88,41 @@ def check(ctx):
         S = RunShape(ctx)
     g, cur, chain = (S.g, S.cur, S.chain) if S is not None else (None, None, None)
     cur_res = lambda e: attr_of(e, "result", cur)
-    chain_pops = call_nodes(g, lambda c: method_call(c, "pop", chain)) if S is not None and chain else []
 
     with group(ctx, "chain-stack"):
         _need_shape(S)
-        # chain stack discipline: peek last, push by append, pop last (no explicit stack at all: judged by C02)
-        if chain is None:
+        # The chain stack is judged by meaning: a symbolic walk of one round of the outer loop (ChainWalk) tells what the logical
+        # stack (explicit list + a separately kept current Deferred) has become at the next round / at exit, per kind of inner-loop exit.
+        W = ChainWalk(S)
+        if W.stack_var is None and not W.ambiguous:
             raise AnalysisError("Deferred._runCallbacks has no explicit chain stack (C02 reports this); stack discipline not applicable")
-        for b in S.binds:
-            ctx.check(S.bind_index[b] == -1, "chain/lifo", ctx.construct(q, g.node(b).ast),
-                      "the current Deferred is not read from the top of the chain stack: after a _CONTINUE hand-over the waiting "
-                      "Deferred's callbacks would not be the ones run next")
-        chain_ops = call_nodes(g, lambda c: isinstance(c.func, ast.Attribute) and is_name(c.func.value, chain))
-        for n in chain_ops:
-            for c in calls_of(g, n, lambda c: isinstance(c.func, ast.Attribute) and is_name(c.func.value, chain)):
-                m = c.func.attr
-                ok = (m == "append" and len(c.args) == 1) or (m == "pop" and (not c.args or const_int(c.args[0]) == -1))
-                ctx.check(ok, "chain/lifo", ctx.construct(q, c),
-                          "the chain stack is pushed/popped at inconsistent ends: a finished Deferred other than the current one is removed")
-        ctx.check(bool(chain_pops), "chain/lifo", q + " | <pop of the chain stack>", "a finished Deferred is never removed from the chain stack")
-        # Exits of the inner loop, classified by meaning (flag-aware path search, so `finished` flags and while/else are read alike):
-        #  (i) callbacks exhausted and (ii) break after pause-and-chain: the current Deferred is popped before the stack is re-read;
-        #  (iii) break after the _CONTINUE hand-over: it is NOT popped (the waiting Deferred was pushed above it) - rule continue/stack-not-popped-early.
-        pushes = call_nodes(g, lambda c: method_call(c, "append", chain) and len(c.args) == 1 and is_name(c.args[0], S.chainee))
-        rebind = set(S.binds)
-        for r in S.regs:
-            wit = fpath(g, S.binds, rebind, avoid=set(chain_pops) | rebind, through=[r])
-            ctx.check(wit is None, "chain/popped-after-chaining", ctx.construct(q, calls_of(g, r, S._is_reg)[0]),
-                      "after pause-and-chain the current Deferred stays on the chain stack: the next round re-reads it, finds it paused and "
-                      "returns from the whole walk, abandoning the Deferreds below it (an inner Deferred's late-added callback never runs when the "
-                      "outer one re-chains)", witness=g.describe(wit))
-        wit = fpath(g, S.binds, rebind, avoid=set(chain_pops) | rebind | set(S.regs) | set(pushes))
-        ctx.check(wit is None, "chain/popped-when-exhausted", q + " | <inner loop ran out of callbacks>",
-                  "a Deferred whose callbacks are exhausted is not popped from the chain stack before the stack is re-read (the walk spins on it / "
-                  "never returns to the Deferred that supplied its result)", witness=g.describe(wit))
+        if W.mode is None:
+            raise AnalysisError("Deferred._runCallbacks: the outer loop / the way the current Deferred is kept is not readable by the chain walk")
+        for n in sorted(set(W.lifo_bad)):
+            ctx.check(False, "chain/lifo", ctx.construct(q, g.node(n).ast),
+                      "the chain stack is read / pushed / popped at the wrong end: a Deferred other than the one on top is taken or removed")
+        RULE = {"handover": ("continue/stack-not-popped-early",
+                             "after the _CONTINUE hand-over the waiting Deferred is not the next one processed with the current one kept right below it"),
+                "chained": ("chain/popped-after-chaining",
+                            "after pause-and-chain the current Deferred is not retired from the chain stack: the next round re-reads it, finds it paused "
+                            "and returns from the whole walk, abandoning the Deferreds below it (an inner Deferred's late-added callback never runs)"),
+                "exhausted": ("chain/popped-when-exhausted",
+                              "a Deferred whose callbacks are exhausted is not retired from the chain stack before the next round (the walk spins on "
+                              "it / never returns to the Deferred that supplied its result)")}
+        seen_kinds = set()
+        for kind, okv, obs, path in W.verdicts():
+            seen_kinds.add(kind)
+            rule, fails = RULE[kind]
+            ctx.check(okv, rule, q + f" | <round ending: {kind}>", f"{fails}; {obs}", detail=obs, witness=g.describe(path) if not okv else "")
+        ctx.check({"chained", "exhausted"} <= seen_kinds, "chain/lifo", q + " | <rounds of the chain walk>",
+                  f"the chain walk found only these kinds of round endings: {sorted(seen_kinds)}")
+        if not W.lifo_bad:
+            ctx.ok("chain/lifo", q + f" | <stack `{W.stack_var}` used at its top only>", f"current Deferred kept {'on top of the list' if W.mode == 'peek' else 'in its own variable'}")
 
     # adders: slot layout, run-at-once on a called Deferred, return self
     with group(ctx, "adders"):
         for name, (want_ok, want_err) in ADDERS.items():
-            f = real_func(ctx, DEFER, f"Deferred.{name}")
+            f = inlined_func(ctx, DEFER, f"Deferred.{name}")
             fg = ctx.cfg(f)
             fq = Q + f"Deferred.{name}"
             ps = params(f)[1:]
@@ -169,8 +166,13 @@ def check(ctx):
                         ctx.check(ok, "adder/slot-args", ctx.construct(fq, trip),
                                   f"{name}: the arguments stored next to {src(callee)} are not the ones the caller supplied for it")
                 if good and name == "addCallbacks":
-                    ok = [src(e) for e in t_ok.elts[1:]] == ["callbackArgs", "callbackKeywords"] and \
-                        [src(e) for e in t_err.elts[1:]] == ["errbackArgs", "errbackKeywords"]
+                    four = {"callbackArgs", "callbackKeywords", "errbackArgs", "errbackKeywords"}
+
+                    def carries(e, want):   # the expression depends on `want` and on none of the other three (defaults such as `() if x is None else x` are fine)
+                        names = {x.id for x in ast.walk(e) if isinstance(x, ast.Name)} | _local_sources(fg, e)
+                        return want in names and not (names & (four - {want}))
+                    ok = carries(t_ok.elts[1], "callbackArgs") and carries(t_ok.elts[2], "callbackKeywords") and \
+                        carries(t_err.elts[1], "errbackArgs") and carries(t_err.elts[2], "errbackKeywords")
                     ctx.check(ok, "adder/slot-args", ctx.construct(fq, pair),
                               "addCallbacks: callbackArgs/Keywords and errbackArgs/Keywords are not stored with their own callable")
                 # run at once when already called: from the append, the only way to the exit without _runCallbacks() is `self.called` false
@@ -299,14 +301,14 @@ def check(ctx):
 
     with group(ctx, "fire"):
         # what is fired: callback() hands over its argument, errback() always a Failure
-        f = ctx.func(DEFER, "Deferred.callback")
+        f = inlined_func(ctx, DEFER, "Deferred.callback")
         fg = ctx.cfg(f)
         starts = call_nodes(fg, lambda c: method_call(c, "_startRunCallbacks", "self"))
         for n in starts:
             c = calls_of(fg, n, lambda c: method_call(c, "_startRunCallbacks", "self"))[0]
             ctx.check(len(c.args) == 1 and is_name(c.args[0], params(f)[1]) and not name_assign_nodes(fg, params(f)[1]), "fire/callback-passes-its-argument",
                       ctx.construct(Q + "Deferred.callback", c), "callback(x) does not start the chain with x")
-        f = ctx.func(DEFER, "Deferred.errback")
+        f = inlined_func(ctx, DEFER, "Deferred.errback")
         fg = ctx.cfg(f)
         eq_ = Q + "Deferred.errback"
         starts = call_nodes(fg, lambda c: method_call(c, "_startRunCallbacks", "self"))
@@ -321,10 +323,22 @@ def check(ctx):
                     if isinstance(x, ast.IfExp):
                         return ctor(x.body) and ctor(x.orelse)
                     return isinstance(x, ast.Call) and dotted(x.func) == "Failure"
-                wraps = stmt_nodes(fg, lambda st: any(is_name(t, v.id) and x is not None and ctor(x) for t, x in targets_values(st)))
-                is_f = lambda e: isinstance(e, ast.Call) and dotted(e.func) == "isinstance" and len(e.args) == 2 and is_name(e.args[0], v.id) and is_name(e.args[1], "Failure")
-                ftests = {t.id for t in fg.nodes if t.kind == "test" and is_f(t.ast)}
-                # a path to the firing that neither wrapped the value nor saw isinstance(value, Failure) succeed
+
+                def is_f(e, name):
+                    return isinstance(e, ast.Call) and dotted(e.func) == "isinstance" and len(e.args) == 2 and is_name(e.args[0], name) and is_name(e.args[1], "Failure")
+
+                def good_def(st_node):
+                    # v = Failure(...)  |  v = x  where isinstance(x, Failure) is established at that point
+                    for t, x in targets_values(fg.node(st_node).ast):
+                        if is_name(t, v.id) and x is not None:
+                            if ctor(x):
+                                return True
+                            if isinstance(x, ast.Name) and known_bool(fg, st_node, lambda e: is_f(e, x.id)) is True:
+                                return True
+                    return False
+                wraps = [d for d in name_assign_nodes(fg, v.id) if good_def(d)]
+                ftests = {t.id for t in fg.nodes if t.kind == "test" and is_f(t.ast, v.id)}
+                # a path to the firing on which the value was neither built as / shown to be a Failure
                 wit = fg.path([fg.entry], [n], avoid=set(wraps), edge_ok=lambda a, b, l: l != "exc" and not (a in ftests and l == "T"))
             ctx.check(ok and wit is None, "fire/errback-wraps-failure", ctx.construct(eq_, c),
                       "errback(x) can start the chain with something that is not a Failure: the *callbacks* would run with the raw exception",
@@ -334,21 +348,22 @@ def check(ctx):
         # who may write _runningCallbacks / paused
         acc2 = module_accesses(mod, {"_runningCallbacks", "paused"})
         for a in acc2:
+            rs = root_callers(mod, a.func)
             if a.attr == "_runningCallbacks":
-                ok = a.func == "Deferred._runCallbacks"
+                ok = rs == {"Deferred._runCallbacks"}
             else:
-                ok = a.func in ("Deferred.pause", "Deferred.unpause", "Deferred._runCallbacks") and a.kind == "augassign"
+                ok = rs <= {"Deferred.pause", "Deferred.unpause", "Deferred._runCallbacks"} and a.kind == "augassign"
             ctx.check(ok, "who-may-write/" + a.attr, ctx.construct(Q + a.func, a.node), f"{a.attr} is written in an unexpected place ({a.func}, {a.kind})")
         ctx.floor("who-may-write", len(acc2), 3)
 
     # (d) pause / unpause
     with group(ctx, "pause-unpause"):
-        f = ctx.func(DEFER, "Deferred.pause")
+        f = inlined_func(ctx, DEFER, "Deferred.pause")
         pg = ctx.cfg(f)
         incs = stmt_nodes(pg, lambda st: isinstance(st, ast.AugAssign) and attr_of(st.target, "paused", "self") and isinstance(st.op, ast.Add) and const_int(st.value) == 1)
         ctx.check(len(incs) == 1 and avoiding_path(pg, [pg.entry], [pg.exit], incs) is None and not pg.path(incs, incs, strict=True),
                   "pause/increments-once", Q + "Deferred.pause", "pause() does not increment the pause counter exactly once")
-        f = ctx.func(DEFER, "Deferred.unpause")
+        f = inlined_func(ctx, DEFER, "Deferred.unpause")
         ug = ctx.cfg(f)
         uq = Q + "Deferred.unpause"
         decs = stmt_nodes(ug, lambda st: isinstance(st, ast.AugAssign) and attr_of(st.target, "paused", "self") and isinstance(st.op, ast.Sub) and const_int(st.value) == 1)
@@ -392,8 +407,6 @@ def check(ctx):
         handover = stmt_nodes(g, lambda st: any(attr_of(t, "result", chainee) and v is not None and attr_of(v, "result", cur) for t, v in targets_values(st)))
         dec = stmt_nodes(g, lambda st: isinstance(st, ast.AugAssign) and attr_of(st.target, "paused", chainee) and isinstance(st.op, ast.Sub)
                          and const_int(st.value) == 1) + call_nodes(g, lambda c: method_call(c, "unpause", chainee))
-        resume = call_nodes(g, lambda c: (method_call(c, "append", chain) and len(c.args) == 1 and is_name(c.args[0], chainee))
-                            or method_call(c, "unpause", chainee) or method_call(c, "_runCallbacks", chainee))
         clear = stmt_nodes(g, lambda st: any(attr_of(t, "result", cur) and is_const(v, None) for t, v in targets_values(st) if v is not None))
         leave = set(S.pops) | set(S.binds) | {g.exit}
         cq = q + " | <_CONTINUE branch>"
@@ -401,7 +414,6 @@ def check(ctx):
             for via, rule, fails in (
                 (handover, "continue/result-handed-over", "the waiting Deferred is resumed without receiving the current result"),
                 (dec, "continue/one-unpause", "the waiting Deferred's pause (taken when it chained) is never undone: its remaining callbacks never run"),
-                (resume, "continue/waiting-deferred-resumed", "the waiting Deferred is not scheduled to run its remaining callbacks"),
                 (clear, "continue/inner-result-cleared", "the inner Deferred keeps the result it handed over (it must end with None)"),
             ):
                 wit = avoiding_path(g, cont_T, leave, via, strict=False)
@@ -409,31 +421,21 @@ def check(ctx):
             wit = avoiding_path(g, dec, dec, S.pops)
             ctx.check(wit is None, "continue/one-unpause", cq + " (at most once)", "the waiting Deferred is un-paused twice for one hand-over",
                       witness=g.describe(wit))
-            for d in dec + resume + handover:
+            for d in dec + handover:
                 ctx.check(S.is_continue(d) is True, "continue/confined", ctx.construct(q, g.node(d).ast),
                           "hand-over to a waiting Deferred happens for an ordinary callback item")
-            wit = avoiding_path(g, cont_T, resume, handover, strict=False)
-            ctx.check(wit is None, "continue/result-before-resume", cq, "the waiting Deferred is resumed before the result is stored on it",
-                      witness=g.describe(wit))
             wit = avoiding_path(g, cont_T, [c for c in clear if S.is_continue(c)], handover, strict=False)
             ctx.check(wit is None, "continue/inner-result-cleared", cq + " (order)",
                       "the inner result is cleared before it is handed over (the waiting Deferred receives None)", witness=g.describe(wit))
-            # nothing more runs for `cur` until the stack is re-read; `cur` must not be removed before the chainee is handled
-            for r in resume:
-                wit = avoiding_path(g, [r], set(S.pops) | set(S.callouts), S.binds)
-                ctx.check(wit is None, "continue/stop-after-handover", ctx.construct(q, g.node(r).ast),
+            # nothing more runs for `cur` once its result has been handed over, until the current Deferred is re-bound
+            nested = call_nodes(g, lambda c: method_call(c, "unpause", chainee) or method_call(c, "_runCallbacks", chainee))
+            for hnode in handover:
+                wit = avoiding_path(g, [hnode], set(S.pops) | set(S.callouts), set(S.binds) | set(nested))
+                ctx.check(wit is None, "continue/stop-after-handover", ctx.construct(q, g.node(hnode).ast),
                           "after handing the result to the waiting Deferred the inner Deferred keeps consuming its own callbacks",
-                          witness=g.describe(wit))
-                wit = avoiding_path(g, [r], chain_pops, S.binds)
-                ctx.check(wit is None, "continue/stack-not-popped-early", ctx.construct(q, g.node(r).ast),
-                          "the chain stack is popped right after the waiting Deferred was pushed: the waiting Deferred is dropped unprocessed",
                           witness=g.describe(wit))
         else:
             ctx.check(False, "continue/recognised", cq, "the _CONTINUE branch / the waiting Deferred taken from args[0] is not recognisable")
-        # chain stack: a Deferred is removed only when its inner loop ended without a hand-over
-        for cp in chain_pops:
-            wit = avoiding_path(g, S.binds, [cp], [])
-            ctx.check(wit is not None, "chain/pop-reachable", ctx.construct(q, g.node(cp).ast), "chain.pop() is unreachable")
 
     with group(ctx, "returned-deferred"):
         _need_shape(S)
@@ -523,6 +525,18 @@ def check(ctx):
 def _need_shape(S):
     if S is None:
         raise AnalysisError("Deferred._runCallbacks skeleton not readable (see run-callbacks/shape)")
+
+
+def _local_sources(fg, e) -> set:
+    """names a local used in ``e`` was computed from (one level), so `args = () if callbackArgs is None else callbackArgs` is seen through"""
+    out = set()
+    for x in ast.walk(e):
+        if isinstance(x, ast.Name):
+            for d in name_assign_nodes(fg, x.id):
+                for t, v in targets_values(fg.node(d).ast):
+                    if is_name(t, x.id) and v is not None:
+                        out |= {y.id for y in ast.walk(v) if isinstance(y, ast.Name)}
+    return out
 
 
 def _check_delegation(ctx, f, fg, fq, name, ps, want_ok, want_err, node):
@@ -655,4 +669,26 @@ SILENT = [
     Silent("flag-renamed-and-inverted", D, "            finished = True\n            current._chainedTo = None\n", "            handedOver = False\n            current._chainedTo = None\n",
            more=[(D, "                    finished = False\n                    break\n", "                    handedOver = True\n                    break\n"),
                  (D, "            if finished:\n                # As much of the callback chain", "            if not handedOver:\n                # As much of the callback chain")]),
+    Silent("current-variable-plus-pending-stack", D, "        chain: List[Deferred[Any]] = [self]\n\n        while chain:\n            current = chain[-1]\n",
+           "        pending: List[Deferred[Any]] = []\n        current = self\n\n        while True:\n",
+           more=[(D, "            finished = True\n            current._chainedTo = None\n", "            nextUp = None\n            current._chainedTo = None\n"),
+                 (D, "                    chain.append(chainee)\n", "                    nextUp = chainee\n"),
+                 (D, "                    finished = False\n                    break\n", "                    break\n"),
+                 (D, "            if finished:\n                # As much of the callback chain", "            if nextUp is not None:\n                pending.append(current)\n                current = nextUp\n                continue\n            if True:\n                # As much of the callback chain"),
+                 (D, "                chain.pop()\n", "                if not pending:\n                    return\n                current = pending.pop()\n")]),
+    Silent("hand-over-and-waiting-extracted-into-helpers", D,
+           "                    chainee.result = current.result\n                    current.result = None\n                    # Making sure to update _debugInfo\n                    if current._debugInfo is not None:\n                        current._debugInfo.failResult = None\n                    chainee.paused -= 1\n",
+           "                    current._handOver(chainee)\n",
+           more=[(D, "                            current.pause()\n                            current._chainedTo = currentResult\n                            # Note: current.result has no result, so it's not\n                            # running its callbacks right now.  Therefore we can\n                            # append to the callbacks list directly instead of\n                            # using addCallbacks.\n                            currentResult.callbacks.append(current._continuation())\n",
+                  "                            current._parkOn(currentResult)\n"),
+                 (D, "    def _runCallbacks(self) -> None:\n        \"\"\"\n        Run the chain of callbacks once a result is available.\n",
+                  "    def _dropFailResult(self):\n        if self._debugInfo is not None:\n            self._debugInfo.failResult = None\n\n"
+                  "    def _handOver(self, waiter):\n        waiter.result = self.result\n        self.result = None\n        self._dropFailResult()\n        waiter.paused -= 1\n\n"
+                  "    def _parkOn(self, inner):\n        self.pause()\n        self._chainedTo = inner\n        inner.callbacks.append(self._continuation())\n\n"
+                  "    def _runCallbacks(self) -> None:\n        \"\"\"\n        Run the chain of callbacks once a result is available.\n")]),
+    Silent("errback-dispatches-into-new-local", D, "        if fail is None:\n            fail = Failure(captureVars=self.debug)\n        elif not isinstance(fail, Failure):\n            fail = Failure(fail)\n\n        self._startRunCallbacks(fail)",
+           "        if isinstance(fail, Failure):\n            reason = fail\n        elif fail is None:\n            reason = Failure(captureVars=self.debug)\n        else:\n            reason = Failure(fail)\n        self._startRunCallbacks(reason)"),
+    Silent("addCallbacks-defaults-by-conditional-expression", D,
+           "        self.callbacks.append(\n            (\n                (callback, callbackArgs, callbackKeywords),\n                (errback, errbackArgs, errbackKeywords),\n            )\n        )\n",
+           "        good = (callback, () if callbackArgs is None else callbackArgs, {} if callbackKeywords is None else callbackKeywords)\n        bad = (errback, () if errbackArgs is None else errbackArgs, {} if errbackKeywords is None else errbackKeywords)\n        self.callbacks.append((good, bad))\n"),
 ]
